@@ -3,6 +3,7 @@
 
   tools/selftest.py                 all seeds and refactors
   tools/selftest.py --prop C11      only those relevant to one property
+  tools/selftest.py -j 8            worker threads (default 6; the fact extraction itself is serialised per configuration)
 Seeds (seeded/<id>/patch.diff): every property listed in meta.json `detected_by` must report a violation again.
 Refactors (selftest/refactors/*.patch): behaviour-preserving edits; every check must stay silent.
 Prints one line per case; exit 1 if a case does not behave as recorded."""
@@ -40,72 +41,75 @@ def case(patch, props):
         shutil.rmtree(ev, ignore_errors=True)
 
 
-def main():
-    only = sys.argv[sys.argv.index("--prop") + 1] if "--prop" in sys.argv else None
-    results = []
-    bad = 0
-    for meta_p in sorted(glob.glob(os.path.join(VERIF, "seeded", "*", "meta.json"))):
-        meta = json.load(open(meta_p))
-        want = meta.get("detected_by", {})
-        props = [p for p in want if (only is None or p == only)]
-        if not props:
-            continue
-        got, err = case(os.path.join(os.path.dirname(meta_p), "patch.diff"), props)
-        if err:
-            results.append({"case": meta["id"], "kind": "seed", "outcome": "skipped", "why": err})
-            print("SKIP  seed %-8s %s" % (meta["id"], err))
-            continue
+def run_case(kind, name, patch, props, spec=None):
+    """one scratch copy, one patch, the given checks: returns (lines, results, bad)"""
+    lines, results, bad = [], [], 0
+    d = scratch_copy()
+    ev = tempfile.mkdtemp(prefix="ipcv-selftest-ev-")
+    try:
+        r = subprocess.run(["patch", "-p1", "-s", "-i", patch], cwd=d, capture_output=True, text=True)
+        if r.returncode != 0:
+            why = "patch does not apply (the tree changed): " + (r.stdout + r.stderr).strip()[:120]
+            results.append({"case": name, "kind": kind, "outcome": "skipped", "why": why})
+            lines.append("SKIP  %s %-34s %s" % (kind, name, why))
+            return lines, results, 1
+        env = dict(os.environ, IPCV_REPO=d, IPCV_EVIDENCE_DIR=ev)
         for p in props:
-            ok = bool(got[p])
-            bad += 0 if ok else 1
-            results.append({"case": meta["id"], "kind": "seed", "property": p, "outcome": "detected" if ok else "MISSED", "keys": got[p][:3]})
-            print("%s seed %-8s %s -> %s" % ("ok   " if ok else "FAIL ", meta["id"], p, (got[p] or ["(silent)"])[0][:120]))
-    # positive controls: one small edit per rule, the named rule must report
-    for patch in sorted(glob.glob(os.path.join(VERIF, "selftest", "mutants", "*.patch"))):
-        name = os.path.basename(patch)[:-6]
-        spec = json.load(open(patch[:-6] + ".json"))
-        props = [p for p in spec["expect"] if only is None or p == only]
-        if not props:
-            continue
-        d = scratch_copy()
-        ev = tempfile.mkdtemp(prefix="ipcv-selftest-ev-")
-        try:
-            r = subprocess.run(["patch", "-p1", "-s", "-i", patch], cwd=d, capture_output=True, text=True)
-            if r.returncode != 0:
-                results.append({"case": name, "kind": "control", "outcome": "skipped", "why": "patch does not apply"})
-                print("SKIP  control %-34s patch does not apply (the tree changed)" % name)
-                continue
-            env = dict(os.environ, IPCV_REPO=d, IPCV_EVIDENCE_DIR=ev)
-            for p in props:
-                rr = subprocess.run([os.path.join(VERIF, "check"), p], capture_output=True, text=True, env=env)
-                rules = set(re.findall(r"^VIOLATION property=\S+ replay=\S+ rule=(\S+)", rr.stdout, re.M))
+            rr = subprocess.run([os.path.join(VERIF, "check"), p], capture_output=True, text=True, env=env)
+            keys = re.findall(r"^VIOLATION property=\S+ replay=\S+ rule=\S+ key=(.*)$", rr.stdout, re.M)
+            rules = set(re.findall(r"^VIOLATION property=\S+ replay=\S+ rule=(\S+)", rr.stdout, re.M))
+            if kind == "seed":
+                ok = bool(keys)
+                results.append({"case": name, "kind": "seed", "property": p, "outcome": "detected" if ok else "MISSED", "keys": keys[:3]})
+                lines.append("%s seed %-8s %s -> %s" % ("ok   " if ok else "FAIL ", name, p, (keys or ["(silent)"])[0][:120]))
+            elif kind == "control":
                 compile_err = bool(re.search(r"configuration \S+ does not compile|default configuration does not compile", rr.stdout))
                 want = set(spec["expect"][p])
                 ok = want <= rules and not compile_err
-                bad += 0 if ok else 1
                 results.append({"case": name, "kind": "control", "property": p, "outcome": "detected" if ok else ("DOES-NOT-COMPILE" if compile_err else "MISSED"), "rules": sorted(rules)})
-                print("%s control %-34s %s want %s got %s%s" % ("ok   " if ok else "FAIL ", name, p, sorted(want), sorted(rules), " (mutant does not compile)" if compile_err else ""))
-        finally:
-            shutil.rmtree(d, ignore_errors=True)
-            shutil.rmtree(ev, ignore_errors=True)
+                lines.append("%s control %-34s %s want %s got %s%s" % ("ok   " if ok else "FAIL ", name, p, sorted(want), sorted(rules), " (mutant does not compile)" if compile_err else ""))
+            else:
+                ok = not keys
+                results.append({"case": name, "kind": "refactor", "property": p, "outcome": "silent" if ok else "FALSE-ALARM", "keys": keys[:3]})
+                lines.append("%s refactor %-28s %s -> %s" % ("ok   " if ok else "FAIL ", name, p, (keys or ["silent"])[0][:120]))
+            bad += 0 if ok else 1
+    finally:
+        shutil.rmtree(d, ignore_errors=True)
+        shutil.rmtree(ev, ignore_errors=True)
+    return lines, results, bad
+
+
+def main():
+    from concurrent.futures import ThreadPoolExecutor
+    only = sys.argv[sys.argv.index("--prop") + 1] if "--prop" in sys.argv else None
+    jobs = int(sys.argv[sys.argv.index("-j") + 1]) if "-j" in sys.argv else 6
+    cases = []
+    for meta_p in sorted(glob.glob(os.path.join(VERIF, "seeded", "*", "meta.json"))):
+        meta = json.load(open(meta_p))
+        props = [p for p in meta.get("detected_by", {}) if (only is None or p == only)]
+        if props:
+            cases.append(("seed", meta["id"], os.path.join(os.path.dirname(meta_p), "patch.diff"), props, None))
+    # positive controls: one small edit per rule, the named rule must report
+    for patch in sorted(glob.glob(os.path.join(VERIF, "selftest", "mutants", "*.patch"))):
+        spec = json.load(open(patch[:-6] + ".json"))
+        props = [p for p in spec["expect"] if only is None or p == only]
+        if props:
+            cases.append(("control", os.path.basename(patch)[:-6], patch, props, spec))
     for patch in sorted(glob.glob(os.path.join(VERIF, "selftest", "refactors", "*.patch"))):
-        name = os.path.basename(patch)[:-6]
         desc = open(patch[:-6] + ".txt").read().strip()
         props = re.findall(r"C\d\d", desc.split(":")[0]) or ALL
         if only is not None:
             if only not in props:
                 continue
             props = [only]
-        got, err = case(patch, props)
-        if err:
-            results.append({"case": name, "kind": "refactor", "outcome": "skipped", "why": err})
-            print("SKIP  refactor %-28s %s" % (name, err))
-            continue
-        for p in props:
-            ok = not got[p]
-            bad += 0 if ok else 1
-            results.append({"case": name, "kind": "refactor", "property": p, "outcome": "silent" if ok else "FALSE-ALARM", "keys": got[p][:3]})
-            print("%s refactor %-28s %s -> %s" % ("ok   " if ok else "FAIL ", name, p, (got[p] or ["silent"])[0][:120]))
+        cases.append(("refactor", os.path.basename(patch)[:-6], patch, props, None))
+    results, bad = [], 0
+    with ThreadPoolExecutor(max_workers=jobs) as ex:
+        for lines, res, b in ex.map(lambda c: run_case(*c), cases):
+            for ln in lines:
+                print(ln, flush=True)
+            results += res
+            bad += b
     if "--json" in sys.argv:
         json.dump(results, open(sys.argv[sys.argv.index("--json") + 1], "w"), indent=1)
     return 1 if bad else 0
